@@ -133,6 +133,77 @@ def emptyMsg (h : EmptyHdr) : Msg :=
   [(1, .bytes h.parentHash), (2, .int h.height), (3, .bytes h.root), (4, .bytes h.identityRoot),
    (5, .int (i64Enc h.time)), (6, .bytes h.blockSeed), (7, .int h.flags)]
 
+/-! ## the two-part header (`types.Header`, types.go:133-136) and its accessors (types.go:558-657) -/
+
+structure HeaderM where
+  proposed : Option ProposedHdr
+  empty : Option EmptyHdr
+
+/-- `(*Header).IsValid` (types.go:652): exactly one part -/
+def HeaderM.valid (h : HeaderM) : Bool :=
+  (h.empty.isNone && h.proposed.isSome) || (h.empty.isSome && h.proposed.isNone)
+
+/-- which part `Hash()`, `Height()`, `ParentHash()` read: the proposed part first (types.go:558-577) -/
+inductive Part where
+  | proposed | empty | none
+deriving DecidableEq, Repr
+
+def HeaderM.hashPart (h : HeaderM) : Part :=
+  match h.proposed, h.empty with
+  | some _, _ => .proposed
+  | none, some _ => .empty
+  | none, none => .none
+
+/-- the pre-image of `Hash()` -/
+def HeaderM.hashMsg (h : HeaderM) : Option (Schema × Msg) :=
+  match h.proposed, h.empty with
+  | some p, _ => some (proposedSchema, proposedMsg p)
+  | none, some e => some (emptySchema, emptyMsg e)
+  | none, none => none
+
+def HeaderM.height (h : HeaderM) : Option Nat :=
+  match h.proposed, h.empty with
+  | some p, _ => some p.height
+  | none, some e => some e.height
+  | none, none => none
+
+def HeaderM.parentHash (h : HeaderM) : Option Bytes :=
+  match h.proposed, h.empty with
+  | some p, _ => some p.parentHash
+  | none, some e => some e.parentHash
+  | none, none => none
+
+/-- `Root()`, `IdentityRoot()`, `Seed()`, `Time()`, `Flags()` read the EMPTY part first (types.go:579-633) -/
+def HeaderM.root (h : HeaderM) : Option Bytes :=
+  match h.empty, h.proposed with
+  | some e, _ => some e.root
+  | none, some p => some p.root
+  | none, none => none
+
+def HeaderM.identityRoot (h : HeaderM) : Option Bytes :=
+  match h.empty, h.proposed with
+  | some e, _ => some e.identityRoot
+  | none, some p => some p.identityRoot
+  | none, none => none
+
+def HeaderM.seed (h : HeaderM) : Option Bytes :=
+  match h.empty, h.proposed with
+  | some e, _ => some e.blockSeed
+  | none, some p => some p.blockSeed
+  | none, none => none
+
+def HeaderM.time (h : HeaderM) : Option Int :=
+  match h.empty, h.proposed with
+  | some e, _ => some e.time
+  | none, some p => some p.time
+  | none, none => none
+
+def HeaderM.flags (h : HeaderM) : Option Nat :=
+  match h.empty, h.proposed with
+  | some e, _ => some e.flags
+  | none, some p => some p.flags
+  | none, none => none
+
 /-! ## block certificates: `FullBlockCert.Compress` (types.go:1009) and the re-expansion of `ValidateBlockCert`
 (blockchain.go:2428-2440) -/
 
